@@ -183,10 +183,12 @@ def _gen_build(r, g, class_default):
                 if base:
                     c = r.randrange(4)
                     inner = [_call(g, t, r.choice(['call', 'bind'])), _call(g, t, 'call', args={}), '!force {}', '!force []'][c]
-                    v = '{c: ' + inner + ', d: ' + _sv(g.tok(t)) + '}'
+                    v = r.choice(['', '', '!force ', '!weak ']) + '{c: ' + inner + ', d: ' + _sv(g.tok(t)) + '}'     # the box itself may carry a priority
                 else:
-                    c = r.randrange(5)
-                    if c == 0:
+                    c = r.randrange(6)
+                    if c == 5:
+                        v = '!unsafe {c: !force ' + _sv('simrec.f_' + g.tok('U')) + '}'      # ... and so may the replacing name
+                    elif c == 0:
                         v = '!unsafe {c: ' + _sv('simrec.f_' + g.tok('U')) + '}'             # name replaced by an implicitly unsafe string
                     elif c == 1:
                         v = '!unsafe {c: ' + _call(g, 'U', r.choice(['call', 'bind']), args={}) + '}'   # argument-less dynamic node below !unsafe
@@ -321,7 +323,7 @@ def _gen_build(r, g, class_default):
     if r.random() < 0.22:
         si = r.randrange(n_stage)
         st = stages[si]
-        how = r.choice(['source', 'meta', 'below', 'included', 'twice', 'twice', 'marked_below', 'marked_merged', 'key_below', 'marked_container', 'merged_plain'])
+        how = r.choice(['source', 'meta', 'below', 'included', 'twice', 'twice', 'marked_below', 'marked_merged', 'key_below', 'marked_container', 'merged_plain', 'forced_box_renamed', 'forced_box_renamed'])
         if how == 'source' and st['taint'] == 'U':
             st['items'].append(['w0', _call(g, 'U', r.choice(['call', 'bind']))])
             witness = how
@@ -348,6 +350,12 @@ def _gen_build(r, g, class_default):
             inner = r.choice([_call(g, 'U', 'call'), '!import simrec.v_' + g.tok('U')])
             st['items'].append(['w0', r.choice(["!unsafe {k: !metadata{{'safe': True}} {c: " + inner + "}}", "!unsafe [!metadata{{'safe': True}} [" + inner + "]]",
                                                 "!unsafe {k: !metadata{{'safe': True}} {m: {c: [" + inner + "]}}}"])])
+            witness = how
+        elif how == 'forced_box_renamed' and n_stage >= 2 and si + 1 < n_stage:
+            # a call inside a mapping that has priority; a later stage marks the mapping !unsafe and replaces the call's name (with priority)
+            sj = r.randrange(si + 1, n_stage)
+            st['items'].append(['w0', '!force {c: ' + _call(g, st['taint'], r.choice(['call', 'bind']), args={}) + '}'])
+            stages[sj]['items'].append(['w0', '!unsafe {c: !force ' + _sv('simrec.f_' + g.tok('U')) + '}'])
             witness = how
         elif how == 'merged_plain' and n_stage >= 2:
             # an unmarked dynamic node in a mapping that another stage marks !unsafe
@@ -413,7 +421,7 @@ def _gen_build(r, g, class_default):
         # the same sources handed over in one call, safety given per source or (when they all agree) once for all
         api = 'multi_scalar' if len({src['safe'] for src in sources}) == 1 and r.random() < 0.5 else 'multi_list'
     # how the merged tree is evaluated: Config(tree), a pickled / deep-copied tree, or an evaluation context used directly
-    route = r.choice(['config'] * 5 + ['pickle', 'deepcopy', 'evalctx', 'dump_reparse', 'dump_reparse'])
+    route = r.choice(['config'] * 5 + ['pickle', 'deepcopy', 'evalctx', 'evalctx', 'dump_reparse', 'dump_reparse'])
     if route == 'dump_reparse' and (not class_default or any(src['taint'] != 'S' for src in sources)):
         route = 'config'      # a dump cannot carry the safety of the *sources*; marks inside the documents it must keep
     return {'sources': sources, 'witness': witness, 'api': api, 'eval_route': route}
@@ -722,6 +730,12 @@ def _still_meaningful(c):
     token only because another stage marks its mapping !unsafe."""
     for th in c['threads']:
         for bd in th['builds']:
+            if bd.get('witness') == 'forced_box_renamed':
+                texts = [src.get('text', '') + src.get('stream', '') + th['files'].get(src.get('path'), '') for src in bd['sources']]
+                for _ in range(3):
+                    texts += [t for fn, t in th['files'].items() if t not in texts and any(fn in x for x in texts)]
+                if not (any('w0: !force {c:' in t for t in texts) and any('w0: !unsafe {c: !force' in t for t in texts)):
+                    return False
             if bd.get('witness') in ('marked_merged', 'merged_plain'):
                 texts = [src.get('text', '') + src.get('stream', '') + th['files'].get(src.get('path'), '') for src in bd['sources']]
                 for _ in range(3):      # files the sources include (by name), a few levels deep
